@@ -804,3 +804,66 @@ Proof.
   pose proof (run_ty t Hwf None [] ([], []) [] I) as HR. change (pre_of None) with (@nil ascii) in HR.
   rewrite (app_nil_r (toks t [])) in HR. etransitivity; [exact HR|reflexivity].
 Qed.
+
+(* ------------------------------------------------------------------ CQL name and codec of the parsed class *)
+Definition drv_name (t : ty) : str := cql_name_gen vector_class_name comma_sp true t.
+
+Lemma typename_simple : forall s, typename_of (marshal_simple s) = cql_simple s.
+Proof. destruct s; reflexivity. Qed.
+
+Lemma by_name_simple : forall s, drv_cql (CReg (marshal_simple s)) = Some (cql_simple s).
+Proof. destruct s; reflexivity. Qed.
+
+Lemma parsed_cql : forall t, drv_cql (parsed t) = Some (drv_name t).
+Proof.
+  apply ty_ind2; unfold drv_name.
+  - intros s. apply by_name_simple.
+  - intros a IH. cbn [parsed]. simpl. rewrite IH. reflexivity.
+  - intros a IH. cbn [parsed]. simpl. rewrite IH. reflexivity.
+  - intros k v IHk IHv. cbn [parsed]. simpl. rewrite IHk, IHv. simpl. rewrite <- ?app_assoc. reflexivity.
+  - intros ts IH. cbn [parsed cql_name_gen].
+    assert (E : opt_all (map drv_cql (map parsed ts)) = Some (map (cql_name_gen vector_class_name comma_sp true) ts)).
+    { rewrite map_map. apply opt_all_map. assumption. }
+    simpl. rewrite E. simpl. rewrite <- ?app_assoc. reflexivity.
+  - intros ks n fn ft IH. reflexivity.
+  - intros a d IH. cbn [parsed]. simpl. rewrite IH. simpl. rewrite <- ?app_assoc. reflexivity.
+  - intros a IH. cbn [parsed]. simpl. rewrite IH. reflexivity.
+  - intros a IH. cbn [parsed]. simpl. rewrite IH. reflexivity.
+Qed.
+
+Lemma vector_free_name : forall v1 v2 sep fz t, vector_free t = true -> cql_name_gen v1 sep fz t = cql_name_gen v2 sep fz t.
+Proof.
+  intros v1 v2 sep fz t. induction t using ty_ind2; cbn [vector_free cql_name_gen]; intros Hv; try reflexivity; try discriminate.
+  - rewrite IHt; auto.
+  - rewrite IHt; auto.
+  - apply andb_true_iff in Hv. destruct Hv. rewrite IHt1, IHt2; auto.
+  - assert (E : map (cql_name_gen v1 sep fz) ts = map (cql_name_gen v2 sep fz) ts).
+    { apply map_ext_in. intros x Hx. rewrite Forall_forall in H. apply H; auto.
+      rewrite forallb_forall in Hv. apply Hv. assumption. }
+    rewrite E. reflexivity.
+  - rewrite IHt; auto.
+  - rewrite IHt; auto.
+Qed.
+
+Lemma simple_of_marshal_simple : forall s, simple_of_marshal (marshal_simple s) = Some s.
+Proof. destruct s; reflexivity. Qed.
+
+Lemma parsed_codec : forall t, cls_codec (parsed t) = Some (codec t).
+Proof.
+  apply ty_ind2.
+  - intros s. simpl. rewrite simple_of_marshal_simple. reflexivity.
+  - intros a IH. cbn [parsed codec]. simpl. rewrite IH. reflexivity.
+  - intros a IH. cbn [parsed codec]. simpl. rewrite IH. reflexivity.
+  - intros k v IHk IHv. cbn [parsed codec]. simpl. rewrite IHk, IHv. reflexivity.
+  - intros ts IH. cbn [parsed codec].
+    assert (E : opt_all (map cls_codec (map parsed ts)) = Some (map codec ts)).
+    { rewrite map_map. apply opt_all_map. assumption. }
+    simpl. rewrite E. reflexivity.
+  - intros ks n fn ft IH. cbn [parsed codec].
+    assert (E : opt_all (map cls_codec (map parsed ft)) = Some (map codec ft)).
+    { rewrite map_map. apply opt_all_map. assumption. }
+    simpl. rewrite E. reflexivity.
+  - intros a d IH. cbn [parsed codec]. simpl. rewrite IH. reflexivity.
+  - intros a IH. cbn [parsed codec]. simpl. rewrite IH. reflexivity.
+  - intros a IH. cbn [parsed codec]. simpl. rewrite IH. reflexivity.
+Qed.
